@@ -167,12 +167,34 @@ def prepare(tier):
     _terms(tier)
 
 
+# H-space for hidden (de)serialiser state: conditions whose data-path arguments share parts but differ in modifiers, in
+# 1 / 1.0 / '1' parts, or in having no parts at all; each unit is a pristine process in which term i is round-tripped first
+def confusable():
+    ps = [P((("prim", "a"), ("prim", "b"))), P((("prim", "a"), ("prim", "b")), "length"), P((("prim", "a"), ("prim", "b")), "dtype"),
+          P((("prim", "a"), ("prim", 1))), P((("prim", "a"), ("prim", 1.0))), P((("prim", "a"), ("prim", "1"))),
+          P(()), P((), "length"), P((), "map_keys"), P((("prim", 1),)), P((("prim", True),)),
+          P((("map", None, None, None), ("prim", "b")), None, "first"), P((("map", None, None, None), ("prim", "b")), "length", "first")]
+    out = []
+    for p in ps:
+        a = ("$path", p)
+        out += [L("Value", "equal_to", a), L("Value", "in_", [a, 1]), L("Value", "in_range", lower=0, upper=a)]
+    out += [L("Value", "equal_to_approx", 1.5), L("Value", "equal_to_approx", 1.5, 0.25), L("Value", "equal_to", {"path": ["a", "b"]})]
+    return out
+
+
 def units(tier):
-    return gen.chunks(len(_terms(tier)), 60)
+    return gen.chunks(len(_terms(tier)), 60) + [["H", i] for i in range(len(confusable()))]
 
 
 def run_unit(unit, tier):
     res = Result()
+    if unit[0] == "H":
+        pool = confusable()
+        order = [unit[1]] + list(range(len(pool)))
+        for n, j in enumerate(order):
+            check_case(res, pool[j], key=("H", unit[1], n), history=[pool[k] for k in order[:n]])
+        res.sample({"term": pool[unit[1]], "history": []})
+        return res
     ts = _terms(tier)
     for i in range(unit[0], unit[1]):
         check_case(res, ts[i], key=(i,))
@@ -182,6 +204,8 @@ def run_unit(unit, tier):
 
 def replay(case):
     res = Result()
+    for t in case.get("history", []):
+        check_case(Result(), t, key=("replay-h",))
     check_case(res, case["term"], key=("replay",))
     return list(res.violations.values())
 
@@ -203,10 +227,12 @@ def probe_docs(t):
     return docs
 
 
-def check_case(res, t, key):
+def check_case(res, t, key, history=None):
     res.count("evaluations")
     res.state(*key)
     case = {"term": t}
+    if history:
+        case["history"] = history
     nm = name_of(t)
     try:
         c = T.build_cond(t)
